@@ -113,6 +113,12 @@ pub open spec fn arith_kind(a: CelValue, b: CelValue) -> NKind {
         _ => NKind::Other,
     }
 }
+/// the double an integer converts to (`as f64`: IEEE round-to-nearest of that number): ASSUMED, not interpreted
+pub uninterp spec fn int_f64(v: int) -> f64;
+pub trait AsMathInt { spec fn math(&self) -> int; }
+impl AsMathInt for i64 { open spec fn math(&self) -> int { *self as int } }
+impl AsMathInt for u64 { open spec fn math(&self) -> int { *self as int } }
+#[verifier::external_body] pub fn to_f64<T: AsMathInt>(v: T) -> (r: f64) ensures r == int_f64(v.math()) { unimplemented!() }
 '''
 
 # ---- R2: std functions without a vstd spec -----------------------------------------------------------
@@ -140,13 +146,18 @@ TYPE_PROP_ENS = [
             ('bool_lhs_uint', 'nkind(lhs) is B && nkind(rhs) is U ==> r.1 == rhs && r.0 == CelValue::UInt(int_val(lhs) as u64)'),
             ('same_kind_untouched', '(nkind(lhs) == nkind(rhs) || nkind(lhs) is Other || nkind(rhs) is Other) ==> r.0 == lhs && r.1 == rhs'),
             ('double_wins', '(nkind(lhs) is F && !(nkind(rhs) is Other)) || (nkind(rhs) is F && !(nkind(lhs) is Other)) ==> r.0 is Float && r.1 is Float'),
+            ('double_widening_is_the_same_number_l', 'nkind(rhs) is F && (nkind(lhs) is I || nkind(lhs) is U) ==> r.0 == CelValue::Float(int_f64(int_val(lhs)))'),
+            ('double_widening_is_the_same_number_r', 'nkind(lhs) is F && (nkind(rhs) is I || nkind(rhs) is U) ==> r.1 == CelValue::Float(int_f64(int_val(rhs)))'),
             ('double_operand_kept_l', 'nkind(lhs) is F ==> r.0 == lhs'),
             ('double_operand_kept_r', 'nkind(rhs) is F ==> r.1 == rhs'),
         ]
 
 
+TO_F64 = lambda v: (f'({v} as f64)', f'to_f64({v})', 'R2: int -> double cast (Verus leaves `as f64` unspecified) -> trampoline over the uninterpreted int_f64 (assumed: the IEEE conversion of that number)')
+
+
 def type_prop_contract(stub=False):
-    return A(ret='r', ensures=TYPE_PROP_ENS, props=('C03', 'C04', 'C01'), stub=stub)
+    return A(ret='r', ensures=TYPE_PROP_ENS, props=('C03', 'C04', 'C01'), stub=stub, rewrites=[] if stub else [TO_F64('l'), TO_F64('i'), TO_F64('u')])
 
 
 def err_prop_contract(stub=False):
